@@ -32,6 +32,7 @@ DOCS = {
     "sub/d.md": "> quote   text\n",
 }
 BAD = b"\xff\xfe not utf-8 \xff\n"
+CRLF = b"Windows   line ends\r\nhere,  long enough to be wrapped when the width is small, for sure it is.\r\n\r\n* item\r\n"
 
 # (name, files in order, flags, bad file index or None)
 SCENARIOS = [
@@ -45,6 +46,8 @@ SCENARIOS = [
     ("multi-bad-middle", ["a.md", "bad.md", "b.md"], ["--inplace"], 1),
     ("big-file", ["big.md"], ["--inplace", "--nobackup"], None),
     ("unchanged-file", ["c.md"], ["--inplace"], None),
+    ("crlf-backup", ["crlf.md"], ["--inplace"], None),
+    ("same-file-twice", ["a.md", "sub/../a.md", "b.md"], ["--inplace"], None),
 ]
 
 
@@ -57,6 +60,10 @@ def make_sandbox(files) -> Path:
         p.parent.mkdir(parents=True, exist_ok=True)
         if f == "bad.md":
             p.write_bytes(BAD)
+        elif f == "crlf.md":
+            p.write_bytes(CRLF)
+        elif os.path.normpath(f) != f:
+            continue            # another spelling of a file that is written under its plain name
         else:
             p.write_text(DOCS[f])
     return base
@@ -111,7 +118,12 @@ def whole_state(name, files, flags, before, after_ref, state, bad_idx) -> str | 
     backup = ("--inplace" in flags or "--auto" in flags) and "--nobackup" not in flags and "--auto" not in flags
     inplace = "--inplace" in flags or "--auto" in flags
     outs = [x[4:] for x in flags if x.startswith("OUT/")]
+    done = set()
     for i, f in enumerate(files):
+        f = os.path.normpath(f)
+        if f in done:
+            continue            # the same file under another spelling
+        done.add(f)
         old = before[f]
         new = after_ref.get(f, old) if inplace else old
         cur = state.get(f)
@@ -185,12 +197,13 @@ def trace(files, flags, inject: str | None = None):
         shutil.rmtree(base, ignore_errors=True)
 
 
-def traced_ops(text: str, sb: str, files, flags) -> list[str]:
+def traced_ops(text: str, sb: str, files, flags, targets=None) -> list[str]:
     """canonical mutating operations on sandbox paths: c<p> (open for writing), a<p> (writes, coalesced), r<a>-<b>, and anything
     else verbatim (unlink, truncate, …)"""
     inplace = "--inplace" in flags or "--auto" in flags
     outs = [x[4:] for x in flags if x.startswith("OUT/")]
-    targets = list(files) if inplace else outs
+    if targets is None:
+        targets = list(files) if inplace else outs
 
     def num(path: str) -> str:
         rel = os.path.relpath(path, sb) if os.path.isabs(path) else path
@@ -238,31 +251,45 @@ def traced_ops(text: str, sb: str, files, flags) -> list[str]:
 
 
 def tie_fsops(ctx: Ctx) -> None:
-    lines, cases = [], []
+    """model side = routing model (which files are written, each once) composed with the operation list of a file write"""
+    cases = []
+    route_lines = []
     for name, files, flags, bad_idx in SCENARIOS:
         inplace = "--inplace" in flags or "--auto" in flags
         outs = [x for x in flags if x.startswith("OUT/")]
+        backup = inplace and "--nobackup" not in flags and "--auto" not in flags
+        uniq = list(dict.fromkeys(os.path.normpath(f) for f in files))
+        ids = [uniq.index(os.path.normpath(f)) for f in files]
         if inplace:
-            backup = "--nobackup" not in flags and "--auto" not in flags
-            f = "".join("x" if (bad_idx is not None and i >= bad_idx) else ("b" if backup else "n") for i in range(len(files)))
+            route_lines.append(f"route\t{','.join(map(str, ids))}\tnone\t1\t{int(not backup)}")
         elif outs:
-            f = "n"
+            route_lines.append("route\t-\t0\t0\t0")
         else:
-            f = ""
-        lines.append(f"fsops\t{f}")
-        cases.append((name, files, flags))
+            route_lines.append(f"route\t{','.join(map(str, ids))}\tnone\t0\t0")
+        cases.append((name, files, flags, bad_idx, uniq, ids, [x[4:] for x in outs]))
+    routes = run_driver(route_lines, workers=1)
+    lines, targets_of = [], []
+    for (name, files, flags, bad_idx, uniq, ids, outs), ans in zip(cases, routes):
+        acts = [a for a in ans.split(";") if a.startswith("F")]
+        tgt_ids = [int(a.split(">")[1].split(":")[0]) for a in acts]
+        chars = [a[-1] for a in acts]
+        if bad_idx is not None and ids[bad_idx] in tgt_ids:
+            k = tgt_ids.index(ids[bad_idx])
+            chars = chars[:k] + ["x"] * (len(chars) - k)
+        lines.append("fsops\t" + "".join(chars))
+        targets_of.append(outs if outs else [uniq[t] for t in tgt_ids])
     outs_model = run_driver(lines, workers=1)
     bad = 0
-    for (name, files, flags), om in zip(cases, outs_model):
+    for (name, files, flags, bad_idx, uniq, ids, outs), targets, om in zip(cases, targets_of, outs_model):
         rc, text, state, sb = trace(files, flags)
-        got = traced_ops(text, sb, files, flags)
+        got = traced_ops(text, sb, files, flags, targets)
         exp = [x for x in om.split(";") if x]
         ctx.count(["trace", name], nontrivial=bool(exp))
         ctx.bump("traced-runs")
         if got != exp:
             bad += 1
             ctx.tie_broken("fsops", {"scenario": name, "files": files, "flags": flags}, exp, got)
-    ctx.obligation(f"tie fsops: the model's operation list = the mutating system calls of the real CLI on sandbox paths (strace) in {len(cases)} scenarios",
+    ctx.obligation(f"tie fsops: the model's operation list (routing model ∘ file-write operations) = the mutating system calls of the real CLI on sandbox paths (strace) in {len(cases)} scenarios",
                    "correspondence", bad == 0, f"{bad} disagreement(s)")
 
 
@@ -303,11 +330,30 @@ def replay_findings(ctx: Ctx) -> None:
                 shutil.rmtree(base, ignore_errors=True)
 
 
+def replay_fixed(ctx: Ctx) -> None:
+    for fid, e in ctx.kf.items():
+        c = e.get("input") or {}
+        if c.get("kind") == "same-file-twice":
+            base = Path(tempfile.mkdtemp(prefix="fmfs."))
+            try:
+                sb = base / "sb"
+                (sb / "sub").mkdir(parents=True)
+                (sb / "a.md").write_text(DOCS["a.md"])
+                subprocess.run([sys.executable, "-m", "flowmark.cli", "--inplace", "a.md", "sub/../a.md"], capture_output=True, cwd=str(sb))
+                st = snapshot(sb)
+                ctx.known_replay(fid, st.get("a.md.orig") != DOCS["a.md"].encode())
+            finally:
+                shutil.rmtree(base, ignore_errors=True)
+
+
 def run(ctx: Ctx) -> None:
     driver_ok = lean_obligations(ctx)
     replay_findings(ctx)
+    replay_fixed(ctx)
     if driver_ok:
         ctx.guard("tie fsops", tie_fsops)
+    import routetie
+    ctx.guard("tie route", routetie.tie_route, driver_ok)
     modes = ("fail", "die", "partial")
     for scen in SCENARIOS:
         inject_all(ctx, scen, modes)
